@@ -138,6 +138,15 @@ def kind_matches(entry, kind):
     return re.fullmatch(entry["kind_regex"], kind) is not None
 
 
+def shape_matches(entry, shapes):
+    """`shape`: that shape is present; `shapes`: all of them are; a shape ending in `*` is a prefix."""
+    need = entry["shapes"] if "shapes" in entry else [entry["shape"]]
+
+    def has(n):
+        return any(s.startswith(n[:-1]) for s in shapes) if n.endswith("*") else n in shapes
+    return all(has(n) for n in need)
+
+
 def classify(prop, groups):
     """Split finding groups of one property into (known, new).  A group matches a known entry
     when property and kind agree and the entry's shape is one of the group's shapes; entries with
@@ -148,7 +157,7 @@ def classify(prop, groups):
         if g["property"] != prop:
             continue
         kind, shapes = split_sig(g["signature"])
-        hit = next((k for k in known_entries if kind_matches(k, kind) and k["shape"] in shapes), None)
+        hit = next((k for k in known_entries if kind_matches(k, kind) and shape_matches(k, shapes)), None)
         (known if hit else new).append((g, hit))
     return known, new
 
@@ -173,11 +182,11 @@ def finish(prop, known, new, extra_violation_lines=()):
     """Print KNOWN-FINDING / VIOLATION lines and return the exit code."""
     seen = set()
     for g, k in known:
-        key = (k.get("kind", k.get("kind_regex")), k["shape"])
+        key = (k.get("kind", k.get("kind_regex")), k.get("shape") or "+".join(k["shapes"]))
         if key in seen:
             continue
         seen.add(key)
-        print(f"KNOWN-FINDING: property={prop} {g['kind']} [{k['shape']}] {k['what']}")
+        print(f"KNOWN-FINDING: property={prop} {g['kind']} [{k.get('shape') or '+'.join(k['shapes'])}] {k['what']}")
     code = 0
     for g, _ in new:
         path = write_replay(prop, g)
